@@ -138,6 +138,36 @@ pub fn run(tier: Tier) -> i32 {
             );
         }
     });
+    // a write that fails (missing directory, path is a directory, /dev/full) followed by an
+    // ordinary write on the same thread: nothing of the failed one may show in the second file
+    let n_after_fail = AtomicU64::new(0);
+    {
+        let fail_targets: Vec<std::path::PathBuf> = vec![scratch.path.join("no_such_dir/x.hex"), scratch.path.clone(), std::path::PathBuf::from("/dev/full")];
+        let mut id = 20_000_000usize;
+        for (fi, ft) in fail_targets.iter().enumerate() {
+            for first_code in [true, false] {
+                for second_code in [true, false] {
+                    for (l1, l2) in [(40usize, 16usize), (16, 40), (700, 0), (0, 33), (70000, 5)] {
+                        id += 1;
+                        let failing = if first_code { built(pattern(2, l1), vec![]) } else { built(vec![], pattern(2, l1)) };
+                        let r = if first_code { sut::write_code_hex(ft.clone(), &failing) } else { sut::write_eeprom_hex(ft.clone(), &failing) };
+                        // (an empty image to /dev/full writes only the EOF record: it may or may not fail)
+                        let _ = r;
+                        n_after_fail.fetch_add(1, Ordering::Relaxed);
+                        evals.fetch_add(1, Ordering::Relaxed);
+                        if let Some((kind, detail)) = check_one(&scratch.path, id, second_code, l2, 0, 0) {
+                            let w = if second_code { "code" } else { "eeprom" };
+                            rep.violation(
+                                &format!("C07/{}/writer={}/after-failed-write-to={}", kind, w, ["missing-directory", "a-directory", "dev-full"][fi]),
+                                || format!("write_{}_hex of a {}-byte image right after a failed write of a {}-byte image on the same thread: {}", w, l2, l1, detail),
+                                || json!({"kind": "hex", "writer": w, "len": l2, "pattern": 0, "other_len": 0, "after_failed_write": true, "observed": detail}),
+                            );
+                        }
+                    }
+                }
+            }
+        }
+    }
     let distinct_lengths: BTreeSet<usize> = lens.iter().map(|x| x.0).collect();
     rep.guard(distinct_lengths.len() > 650, "fewer than 650 distinct lengths");
     rep.sample(|| json!({"writer": "code", "len": 44, "pattern": "position hash", "other_image_len": 0}));
@@ -153,6 +183,7 @@ pub fn run(tier: Tier) -> i32 {
         "distinct_lengths": distinct_lengths.len(),
         "image_bytes_compared": bytes_checked.load(Ordering::Relaxed),
         "rewrites_of_a_path_holding_a_longer_file": n_pre.load(Ordering::Relaxed),
+        "writes_right_after_a_failed_write": n_after_fail.load(Ordering::Relaxed),
         "default_device_boundaries_x64K": big_ks,
         "largest_length": largest_flash_bytes,
         "caps_hit": [],
